@@ -32,7 +32,7 @@ SPEC = {
             "plus distinct real epochs (final block hash) in which at least one identity changed status",
     "jobs": [
         Job("rules", "core/ceremony", "^TestVerifC17Rules$", shards=(4, 8), timeout=(600, 1200)),
-        Job("real", "verifsim", "^TestVerifC17Real$", shards=(8, 16), timeout=(900, 3600)),
+        Job("real", "verifsim", "^TestVerifC17Real$", shards=(8, 16), timeout=(1200, 5400)),
     ],
     "parallel": 16,
     "floors": {
@@ -41,21 +41,25 @@ SPEC = {
         "rule_prior_Undefined": 384, "rule_prior_Invite": 384, "rule_prior_Candidate": 384, "rule_prior_Newbie": 384, "rule_prior_Verified": 384,
         "rule_prior_Human": 384, "rule_prior_Suspended": 384, "rule_prior_Zombie": 384, "rule_prior_Killed": 384,
         "rule_combos_missed": 1728, "rule_combos_lacking_flips": 1728,
-        # (b)
-        "real_epochs_driven": (40, 500),
-        "real_epochs_finished": (30, 400),
-        "real_epochs_with_status_change": (30, 400),
-        "evals_first_pass": (300, 4000),
-        "evals_cache_hit": (600, 8000),
-        "restart_at_lottery": (6, 80), "restart_at_short": (6, 80), "restart_at_long": (6, 80), "restart_at_afterlong": (6, 80), "restart_at_final": (90, 1200),
-        "variant_blind_first": (30, 400), "variant_node_first": (60, 800), "variant_restart_first": (60, 800), "variant_fresh_first": (90, 1200),
-        "variant_proposer_cached": (90, 1200),
-        "competing_proposals_built": (15, 200),
-        "real_lacking_flips": (10, 100), "real_sent_nothing": (30, 300), "real_unactivated_invites": (10, 100),
-        "real_delegated_identities": (20, 200), "real_transitive_chain2_epochs": (4, 40),
-        "real_prior_Candidate": 20, "real_prior_Newbie": 20, "real_prior_Verified": 10, "real_prior_Human": 50, "real_prior_Suspended": 10,
-        "real_prior_Zombie": 4, "real_prior_Invite": 10,
-        "distinct_map_orders_witnessed": 50,
+        # (b) the scenario structure (worlds, epochs, variants, restart phases) is a function of (tier, shard); PRNG-dependent
+        # class counts carry a wide margin
+        "real_epochs_driven": (28, 450),
+        "real_epochs_finished": (22, 380),
+        "real_epochs_with_status_change": (22, 380),
+        "evals_first_pass": (260, 5500),
+        "evals_cache_hit": (850, 25000),
+        "restart_at_lottery": (14, 220), "restart_at_short": (14, 220), "restart_at_long": (14, 220), "restart_at_afterlong": (14, 220),
+        "restart_at_final": (66, 2300),
+        "variant_blind_first": (22, 380), "variant_node_first": (44, 760), "variant_restart_first": (44, 760), "variant_fresh_first": (66, 2300),
+        "variant_sees_first": (22, 380), "variant_proposer_cached": (200, 4500), "variant_rival_cached": (60, 2200), "variant_alt_cached": (60, 2200),
+        "competing_proposals_built": (22, 380),
+        "restart_of_proposing_node": (8, 130), "final_block_built_by_restarted_node": (1, 15),
+        "real_lacking_flips": (6, 250), "real_sent_nothing": (25, 700), "real_unactivated_invites": (15, 380),
+        "real_delegated_identities": (60, 1400), "real_transitive_chain2_epochs": (5, 140), "real_transitive_delegation_removed": (4, 130),
+        "real_prior_Candidate": (90, 2000), "real_prior_Newbie": (70, 1900), "real_prior_Verified": (35, 800), "real_prior_Human": (100, 2000),
+        "real_prior_Suspended": (25, 550), "real_prior_Zombie": (8, 280), "real_prior_Invite": (15, 380), "real_prior_Undefined": (10, 300),
+        "real_epochs_with_rewarded_reporters": (8, 220), "real_epochs_with_bad_authors": (8, 220), "real_epochs_with_pools": (12, 300),
+        "distinct_map_orders_witnessed": (400, 20000),
     },
     "assumptions": [
         "one shard (shard balancing needs thousands of identities); multi-shard lotteries are observed at function level under C16",
